@@ -91,7 +91,9 @@ func c06Jobs(tier string, seed int64) []string {
 		// vacuity guards on the engine's spawn markers: the forcing profiles must reach the
 		// library's parallel mode, the forbidding ones (late, one CPU) must not
 		switch {
-		case opt == "numcpu=1" || (prof == "late" && !strings.Contains(p, "->numbers(")): // a nested slow list makes the outer elements slow
+		case opt == "numcpu=1" || (prof == "late" && !strings.Contains(p, "->numbers(") && !strings.Contains(p, "accept(")):
+			// (a nested slow list makes the outer elements slow; behind an accept stage the late, slow elements
+			// of the source fall into the measurement window of the next stage)
 			opt += ",expectnot=initParallel"
 		case strings.Contains(p, "slow("):
 			opt += ",expect=initParallel"
